@@ -80,7 +80,7 @@ def gen_unit(rng):
         args += ["--skip", str(rng.randint(0, 4))]
         up.append("skip")
     if rng.random() < 0.3:
-        args += ["--take", str(rng.choice((0, 1, 2, 5, 50)))]
+        args += ["--take", str(rng.choice((0, 1, 2, 5, 50, 2 ** 64 - 1, 2 ** 63, 2 ** 63 - 1, 10 ** 15)))]
         up.append("take")
     out = rng.choice([[], [], ["--style", "consise"], ["--style", "pretty"], ["-o", "text"]])
     unit = {"input": records.to_input(recs, rng), "args": args, "out": out, "upstream": sorted(set(up)),
